@@ -102,7 +102,7 @@ func alterSig(t *rapid.T, sig []byte, e *edScalar) (string, []byte) {
 		} else {
 			l = rapid.IntRange(0, len(o)-1).Draw(t, "tlen")
 		}
-		return fmt.Sprintf("sig-truncate→%d", l), o[:l]
+		return fmt.Sprintf("sig-truncate→%d", l), vlib.Clip(o[:l])
 	case "sig-append":
 		extra := vlib.Bytes(t, 1, 16, "extra")
 		if rapid.Bool().Draw(t, "zeroExtra") {
@@ -151,7 +151,7 @@ func flipMsg(t *rapid.T, msg []byte) (string, []byte) {
 		return fmt.Sprintf("msg-bitflip@%d", i), o
 	case k == "msg-truncate" && len(msg) > 0:
 		l := rapid.IntRange(0, len(msg)-1).Draw(t, "mlen")
-		return fmt.Sprintf("msg-truncate→%d", l), msg[:l]
+		return fmt.Sprintf("msg-truncate→%d", l), vlib.Clip(msg[:l])
 	default:
 		return "msg-extend", append(append([]byte{}, msg...), rapid.Byte().Draw(t, "mb"))
 	}
@@ -330,7 +330,7 @@ func TestC02Enumerate(t *testing.T) {
 			if l%vlib.NShards != vlib.Shard {
 				continue
 			}
-			if !expectRejectD(t, sub, name, fmt.Sprintf("sig-truncate→%d", l), vfy, msg, sig[:l]) {
+			if !expectRejectD(t, sub, name, fmt.Sprintf("sig-truncate→%d", l), vfy, msg, vlib.Clip(sig[:l])) {
 				return
 			}
 		}
